@@ -134,9 +134,24 @@ func (t *T17) build(shared map[int]*types.Type, share bool) *types.Type {
 		}
 		out = types.Obj(fs)
 	case "fun":
-		ps := make([]*types.Type, len(t.A)-1)
-		for i := range ps {
-			ps[i] = t.A[i].build(shared, share)
+		var ps []*types.Type
+		key := ""
+		if share && paramSlices != nil {
+			// parameter lists of equal structure are ONE Go slice with spare capacity, shared by
+			// all function types of the case (two signatures built from one parameter list)
+			for _, a := range t.A[:len(t.A)-1] {
+				key += a.canon() + ";"
+			}
+			ps = paramSlices[key]
+		}
+		if ps == nil {
+			ps = make([]*types.Type, len(t.A)-1, len(t.A)+1)
+			for i := range ps {
+				ps[i] = t.A[i].build(shared, share)
+			}
+			if share && paramSlices != nil {
+				paramSlices[key] = ps
+			}
 		}
 		out = types.Fun(t.N, ps, t.A[len(t.A)-1].build(shared, share))
 	case "tuple":
@@ -1108,8 +1123,12 @@ func doUnify(x, y *types.Type) (o unifyOut) {
 	return o
 }
 
+// paramSlices: per case, the parameter slices handed to types.Fun (see build).
+var paramSlices map[string][]*types.Type
+
 func runCase17(c *Case17) case17Result {
 	var res case17Result
+	paramSlices = map[string][]*types.Type{}
 	res.NonTrivial = (c.X.composite() || c.Y.composite()) && (c.X.hasVar() || c.Y.hasVar())
 	fail := func(kind, sig, detail string) case17Result {
 		res.Viol = &Violation{kind, sig, detail + fmt.Sprintf("\n x = %s\n y = %s\n share=%v gc=%s", c.X.canon(), c.Y.canon(), c.Share, c.GC)}
